@@ -1032,7 +1032,7 @@ func (fc *funcContext) translateBuiltin(name string, sig *types.Signature, args 
 			// call or a channel receive, which still has to be evaluated.
 			return fc.formatExpr("(%e, %d)", args[0], argType.Len())
 		case *types.Map:
-			return fc.formatExpr("(%e ? %e.size : 0)", args[0], args[0])
+			return fc.formatExpr("(%1e ? %1e.size : 0)", args[0])
 		case *types.Chan:
 			return fc.formatExpr("%e.$buffer.length", args[0])
 		default:
